@@ -189,7 +189,7 @@ PROPS = {
             "rule": "random data sets (20-70 rows, arms absent from train or test), 1-3 bandits per simulation (context-free, linear, Radius/KNearest with nine metrics incl. "
                     "seuclidean / mahalanobis, LSH, Clusters, TreeBandit), test_size, ordered / random split, batch_size in {0,1,k,|test|}, is_quick; predictions compared with an "
                     "independent replay through MAB.fit / predict / predict_expectations / partial_fit on a deep copy taken before the simulation; non-trivial = simulation completed"},
-    "C16": {"gen": g_any, "fields": ("out", "arms"), "functional": True, "n": (60, 600),
+    "C16": {"gen": g_any, "fields": ("out", "arms"), "functional": True, "n": (30, 300), "simcorr": (120, 2000),
             "relations": [("bookkeeping_laws", REL.gen_c16, REL.run_c16, (150, 2000))],
             "rule": "same simulations as C15 restricted to four metrics; every public attribute after run(): split partition, one prediction per test row, total/train/test statistics "
                     "versus numpy recomputation, train + test = total, default evaluation (incl. neighbourhood statistics when not quick) versus direct recomputation, counts sum "
@@ -422,6 +422,19 @@ def extended_search(prop, spec, tier, seed, stats, findings, known_lines):
 def replay(prop, path):
     body = json.load(open(path))
     print(json.dumps({k: body[k] for k in body if k != "log"}, indent=1, default=str)[:4000])
+    if body.get("kind") == "correspondence" and body.get("simulation"):
+        import simcorr
+        t = body["simulation"]
+        for b in t["bandits"]:
+            b["lp"] = tuple(tuplify(v) if isinstance(v, list) else v for v in b["lp"])
+            if b.get("np") is not None: b["np"] = tuple(b["np"])
+        impl, split, tape, err = simcorr.run_sim_impl(t)
+        if impl is None:
+            print("REPLAY: the Simulator raised", err); return 1
+        res = mwh.run_model([("s0", simcorr.simcase_text("s0", t, split, tape))], os.path.join(ROOT, "build", "work_replay"))
+        d = simcorr.compare_sim(t, impl, res.get("s0"))
+        print("REPLAY disagreements:", d[:5])
+        return 1 if d else 0
     if body.get("kind") == "correspondence" and body.get("case"):
         c = fix_case(body["case"])
         tr, tape, _ = mwh.run_impl(c)
